@@ -21,6 +21,42 @@ def build_preload():
         log(r.stderr); raise SystemExit(2)
 
 
+def build_roundtrip():
+    """in-memory tier: writers, readers and merge functions of the freshly built libTFELMFront driven directly (harness/C47/h47rt.cpp)"""
+    inc = REPO_INC + ["-I" + os.path.join(REPO, "mfront/include")] + tfel_inc()
+    L = []
+    for d, l in (("mfront/src", "TFELMFront"), ("mfront/src", "MFrontLogStream"), ("src/Utilities", "TFELUtilities"), ("src/Exception", "TFELException")):
+        p = os.path.join(TFEL_BUILD, d); L += ["-L" + p, "-Wl,-rpath," + p, "-l" + l]
+    for d in ("src/System", "src/Math", "src/Material", "src/Glossary", "src/UnicodeSupport", "src/Config", "src/NUMODIS", "src/Tests"):
+        p = os.path.join(TFEL_BUILD, d)
+        if os.path.isdir(p):
+            L += ["-Wl,-rpath," + p, "-Wl,-rpath-link," + p]
+    out = os.path.join(BUILD, PID)
+    os.makedirs(out, exist_ok=True)
+    exe = os.path.join(out, "h47rt")
+    r = run([CXX, "-std=c++20", "-O1", "-g"] + inc + [os.path.join(VERIF, "harness/C47/h47rt.cpp"), "-o", exe] + L)
+    if r.returncode != 0:
+        log("BUILD FAILED (harness/C47/h47rt.cpp):\n" + r.stderr[-3000:]); raise SystemExit(2)
+    return exe
+
+
+def run_roundtrip(exe, seed, count, viol, stats):
+    p = subprocess.run([exe, "--seed", str(seed), "--count", str(count)], stdout=subprocess.PIPE, stderr=subprocess.PIPE, text=True, errors="replace", env=tfel_env())
+    summary = None
+    for l in p.stdout.splitlines():
+        if not l.startswith("{"):
+            continue
+        r = json.loads(l)
+        if r.get("summary"):
+            summary = r
+        else:
+            viol.append((r["cls"], "in-memory description #%d (seed %d): %s; registry text: %s" % (r["case"], r["seed"], r["detail"], r.get("registry", "")[:300]), {"roundtrip": {"seed": seed, "case": r["case"]}}))
+    if summary is None:
+        viol.append(("roundtrip-harness-crashed", "exit status %d: %s" % (p.returncode, p.stderr[-300:]), {"roundtrip": {"seed": seed}}))
+    else:
+        stats["roundtrip_descriptions"] = summary["cases"]; stats["roundtrip_nontrivial"] = summary["nontrivial"]; stats["roundtrip_merges"] = summary["merges"]
+
+
 def corpus():
     t = os.path.join(REPO, "mfront/tests")
     c = []
@@ -374,17 +410,31 @@ def main():
     t0 = time.time()
     ensure_tfel(("mfront",))
     build_preload()
+    rt = build_roundtrip()
     cps = corpus()
     root = fresh_workdir(PID)
     ctx = Ctx(cps, root)
     try:
         if args.replay:
+            rep0 = json.load(open(args.replay))
+            if "roundtrip" in rep0:   # in-memory tier: the description is regenerated from (seed, case)
+                v2, st2 = [], {}
+                run_roundtrip(rt, rep0["roundtrip"]["seed"], rep0["roundtrip"].get("case", 0) + 1, v2, st2)
+                v2 = [v for v in v2 if v[2].get("roundtrip", {}).get("case") == rep0["roundtrip"].get("case")]
+                for v in v2:
+                    log("replay: %s: %s" % (v[0], v[1]))
+                if v2:
+                    log("VIOLATION property=%s replay=%s" % (PID, os.path.abspath(args.replay)))
+                    return 1
+                log("replay: ok")
+                return 0
             return replay(args, ctx)
         tier = 0 if args.tier == "quick" else 1
         nhist = args.runs or (10 if tier == 0 else 120)
         budget = args.budget or (900 if tier else 0)
         viol = []
         stats = {"mfront_runs": 0, "idempotence_checked": 0, "crash_points": 0, "damage_reported_by_next_run": 0, "io_events_numbered": 0}
+        run_roundtrip(rt, args.seed, 4000 if tier == 0 else 100000, viol, stats)
         samples = []
         with concurrent.futures.ThreadPoolExecutor(max_workers=NPROC) as pool:
             for i in range(len(cps)):
@@ -441,6 +491,8 @@ def main():
                            "stub": ["nothing; the LD_PRELOAD layer only numbers I/O events and injects the kill / error"]},
             "findings": reported,
         }
+        coverage["in_memory_tier"] = {"descriptions_written_read_and_rewritten": stats.get("roundtrip_descriptions", 0), "non_trivial": stats.get("roundtrip_nontrivial", 0), "merges_checked": stats.get("roundtrip_merges", 0),
+                                      "what": "seeded TargetsDescription objects with every member populated (strings as real runs register them: quoted commands, make variables, paths with spaces) go through the real operator<<, CxxTokenizer, read<TargetsDescription> and mergeTargetsDescription of the freshly built libTFELMFront"}
         assumptions = ["kill model: a killed process loses nothing for which write() returned (no power loss)", "the small registry parser of the driver accepts exactly the format written by TargetsDescription's operator<<",
                        "'reports the damaged registry' = non-zero exit status or the \"can't read file\" message on its output"]
         if not args.no_evidence:
